@@ -95,7 +95,7 @@ func Start(id, level string) *Run {
 	}
 	budget := 20 * time.Minute
 	if r.Tier == "thorough" {
-		budget = 3 * time.Hour
+		budget = 30 * time.Minute // checks that consult Expired() end themselves with exhaustive:false
 	}
 	if b := os.Getenv("VERIF_BUDGET_S"); b != "" {
 		if n, err := strconv.Atoi(b); err == nil {
